@@ -483,7 +483,9 @@ def drive(pid, mod, tier, seed, replay=None, workers=None, limit=None):
         # evidence/ describes /repo only: a run against a scratch copy (VERIF_REPO, used for
         # deliberate breaks and seeded changes) writes beside it, into a git-ignored directory
         # (a --limit run is a partial look at the workload and never evidence either)
-        edir = os.path.join(VERIF, 'evidence' if REPO == '/repo' and not limit
+        partial = limit or any(k.startswith('VERIF_') and k.endswith('_FILTER') and v
+                               for k, v in os.environ.items())
+        edir = os.path.join(VERIF, 'evidence' if REPO == '/repo' and not partial
                             else '.scratch-evidence')
         ev['coverage']['subject_tree'] = REPO
         os.makedirs(edir, exist_ok=True)
